@@ -93,14 +93,21 @@ def main(argv=None):
     known = [k for k in load_known() if k.get("property") == prop and k.get("status", "open") == "open"]
     keys = [k for k, c in REG.contracts.items() if prop in c.props and c.verify and (not a.only or a.only in k)]
     assumed = [k for k, c in REG.contracts.items() if not c.verify]
-    if not keys:
+    if not keys and not [r for r in REG.writer_rules if r["prop"] == prop]:
         print(f"CHECKER-ERROR no functions under contract for {prop}")
         return 3
     thorough = a.tier == "thorough"
     cfg = {"timeout_ms": 60000 if thorough else 15000, "both": thorough, "cvc5": True, "samples": True,
            "known": known, "prop": prop}
-    with mp.get_context("fork").Pool(min(a.jobs, len(keys))) as pool:
+    with mp.get_context("fork").Pool(max(1, min(a.jobs, len(keys)))) as pool:
         results = pool.map(worker, [(k, cfg) for k in keys], chunksize=1)
+    from pyvc.frames import check_writers
+    for rule in REG.writer_rules:
+        if rule["prop"] == prop and not a.only:
+            obs = check_writers(rule)
+            results.append({"key": f"writers::{rule['attr']}", "file": "src/primaite (whole tree)", "qualname": f"<writers of .{rule['attr']}>",
+                            "sha256": "", "lines": [0, 0], "paths": 0, "error": None, "obligations": obs, "log": [],
+                            "refutations": [], "secs": 0.0})
     return report(prop, a.tier, seed, results, known, assumed, t0, a.v)
 
 
